@@ -789,6 +789,35 @@ class GhostLog:
         return out
 
 
+def probe_rename_window(chk):
+    """Known finding rename_inbox_target_written_in_window: RENAME INBOX R1 (INBOX empty) held
+    at its BEGIN while another session APPENDs to the just created R1."""
+    ops = []
+    for c in ("c1", "c2"):
+        ops += [{"op": "open", "conn": c}, {"op": "send", "conn": c, "data": "i%s LOGIN %s pw\r\n" % (c, USER), "until": "tag:i" + c}]
+    ops += [{"op": "dump"}, {"op": "c03_gate_install", "user": USER}]
+    dry = C.run_ops(ops + [{"op": "c03_hold", "holder": {"conn": "c1", "steps": [{"data": "h1 RENAME INBOX R1\r\n", "until": "tag:h1"}]}, "others": [], "holds": []}], timeout=120)
+    try:
+        at = dry["obs"][-1]["points"].index("B")
+    except Exception:
+        return
+    ops.append({"op": "c03_hold", "dumps": True,
+                "holder": {"conn": "c1", "steps": [{"data": "h1 RENAME INBOX R1\r\n", "until": "tag:h1"}]},
+                "others": [{"conn": "c2", "steps": sched_append_steps("o1", "R1", 700)}], "holds": [{"at": at, "run": [0]}]})
+    ops.append({"op": "dump"})
+    r = C.run_ops(ops, timeout=120)
+    if r.get("crashed") or len(r.get("obs", [])) != len(ops):
+        return
+    ghost = GhostLog()
+    viols = ghost.step(user_store(r["obs"][-4]))
+    for st in (r["obs"][-2].get("dumps") or []):
+        viols += ghost.step(user_store({"stores": st}))
+    viols += ghost.step(user_store(r["obs"][-1]))
+    if viols:
+        chk.violation("RENAME INBOX R1 (INBOX empty) held at BEGIN while another session runs APPEND R1: %s" % viols[0],
+                      {"suite": "rename_window"}, cls="rename_inbox_target_written_in_window")
+
+
 def seq_specs(h, seq):
     if not isinstance(seq, str):
         return seq
@@ -1103,6 +1132,7 @@ def run(chk):
         for _ in range(30):
             cases2.append(("rename_inbox", chk.rng.choice(SLOTS2), [chk.rng.choice(kinds3) for _ in range(chk.rng.randint(1, 4))]))
     run_sched2(chk, cases2, stats)
+    probe_rename_window(chk)
     # ---- 2. random histories
     n_rand, n_clean, length = (40, 24, 22) if quick else (700, 300, 40)
     fam = rename_inbox_family()
